@@ -3,7 +3,7 @@ import os
 import sys
 import time
 sys.path.insert(0, os.path.join(os.path.dirname(os.path.abspath(__file__)), "..", "mir2smt"))
-from vlib import Scratch, replay_test, log
+from vlib import Scratch, replay_test, log, inject_memchan_overlay, Inconclusive
 import kprop
 import wirecommon as W
 
@@ -15,14 +15,24 @@ TRANSPORT = {
     "c15_flush_is_not_close": t("poll_flush flushes the byte stream and does not shut it down; outcome reported", ["outcome of the stream's poll_flush"]),
     "c15_eof_ends_the_stream": t("a byte stream at end-of-file ends the transport's Stream with None", []),
 }
+def mch(steps):
+    return {"desc": "in-memory transport (transport::channel::unbounded), %d solver-chosen operations on a connected pair — one end sends a symbolic u32 (poll_ready, start_send, poll_flush) / the other end polls its stream / the sending end is closed-and-dropped or just dropped: every message comes out exactly once, unchanged, in the order sent; an idle live peer gives Pending; end-of-stream is reported only once the peer is gone AND everything sent before has been delivered" % steps,
+            "symbolic": ["which operation at each step", "every message body (u32)", "whether poll_close is called before the drop"],
+            "bounds": "%d operations, <=3 undelivered messages, one direction, unwind %d" % (steps, steps + 2), "covers": 3}
+MEMCHAN = {"c15_memchan_steps4": mch(4), "c15_memchan_steps5": mch(5), "c15_memchan_steps7": mch(7),
+           "c15_memchan_survivor": {"desc": "the surviving end after its peer was dropped: its sink reports an error from poll_ready (no panic, nothing silently accepted), the message the peer sent before going away is still delivered, then the stream ends",
+                                    "symbolic": ["message body (u32)"], "bounds": "one message, unwind 4", "covers": 1}}
+MEMCHAN_THOROUGH = {"c15_memchan_steps9": mch(9)}
 STATIC = {
     "coverage": {
-        "functions_encoded": W.WIRE_FUNCS + ["tarpc::serde_transport::{new, <Transport as Sink>::{poll_flush, poll_close}, <Transport as Stream>::poll_next} over tokio_serde::Framed<tokio_util::codec::Framed<Io, LengthDelimitedCodec>> with a harness byte stream and codec"],
+        "functions_encoded": W.WIRE_FUNCS + ["tarpc::serde_transport::{new, <Transport as Sink>::{poll_flush, poll_close}, <Transport as Stream>::poll_next} over tokio_serde::Framed<tokio_util::codec::Framed<Io, LengthDelimitedCodec>> with a harness byte stream and codec",
+                              "tarpc::transport::channel::{unbounded, <UnboundedChannel as Stream>::poll_next, <UnboundedChannel as Sink>::{poll_ready, start_send, poll_flush, poll_close}} (Item = SinkItem = u32)"],
         "outside_claim": ["length-delimited framing under fragmentation (tokio_util Framed + BytesMut: not encodable, DESIGN §1)",
-                          "end-of-stream after bytes are in flight (only an idle transport's close/EOF is decided); the in-memory transports (tokio / futures mpsc)",
+                          "end-of-stream after bytes are in flight (only an idle transport's close/EOF is decided); the bounded in-memory transport (futures mpsc: 10 GB, DESIGN §1); wake-ups of the unbounded one (the harness polls by hand) and tokio's mpsc itself (contract model under Kani, real channel in the native replay)",
                           "bodies beyond u32 / [u8;8], non-empty or unicode strings, string escaping in real serde_json"],
     },
     "assumptions": W.WIRE_ASSUMPTIONS + [
+        "in-memory transport harnesses: in-crate module of a scratch COPY of tarpc; under cfg(kani) only, `tokio::sync::mpsc` in transport/channel.rs is the waker-less contract model overlay/verif_env.rs::mpsc_closing (FIFO; send fails / is_closed once the receiver is gone; poll_recv yields buffered items first and None only when the buffer is empty and every sender is gone); a counterexample is replayed natively on the REAL tokio channel",
         "MIR->SMT engine: supports the MIR subset of loop-free integer table functions (const, discriminant, enum constants, switchInt, goto, Serialize/Deserialize/Try calls summarised); anything else = inconclusive; its codec wire functions (varint+zig-zag / fixed width / JSON) are compared cell by cell with the real functions under real bincode / serde_json for all 39 stable kinds on every run; z3 4.8.12 and cvc5 1.0 must agree",
     ],
 }
@@ -45,6 +55,17 @@ def main(tier):
         # second crate: the Sink/Stream forwarding of serde_transport::Transport (end-of-stream clause)
         r2, v2, k2, i2, w2 = kprop.decide(PID, tier, s, "transport", TRANSPORT, timeout_s=1200)
         recs.update(r2); viol += v2; known += k2; inc += i2; wall += w2
+        # third: the in-memory transport over a contract model of tokio's mpsc (order / end-of-stream clause)
+        try:
+            inject_memchan_overlay(s)
+            mm = dict(MEMCHAN)
+            if tier == "thorough":
+                mm.update(MEMCHAN_THOROUGH)
+            r3, v3, k3, i3, w3 = kprop.decide(PID, tier, s, "overlay-memchan", mm, cwd=os.path.join(s.repo, "tarpc"), timeout_s=1800, harness_timeout=1200,
+                                              replay_kw={"as_test": [], "rustflags": "--cfg verif_replay", "test_name": "verif_replay_entry_memchan"})
+            recs.update(r3); viol += v3; known += k3; inc += i3; wall += w3
+        except Inconclusive as e:
+            inc.append(("c15_memchan", str(e)))
         # second engine: MIR -> SMT-LIB -> z3 + cvc5 on the error-kind table (independent of Kani)
         import c15_engine
         log("  MIR->SMT engine (error-kind table):")
